@@ -345,6 +345,63 @@ pub fn run(cfg: &Cfg, rep: &mut Report) {
             }
         }
     });
+    // Stream 2: triangles hanging off the top and/or left of the grid, as
+    // unclipped callers of tri_fill hand in (C04 decides which pixels appear;
+    // here: the fragments that do appear sit at their centres and carry the
+    // plane's values, however far the rasteriser had to skip to reach them).
+    rep.run_stream(cfg, 2, "negative_offgrid", cfg.n(60_000, 6_000_000), |rng, i, rep| {
+        fn go<A: Attr>(rng: &mut Rng, rep: &mut Report) {
+            let ext = rng.pick(&[8.0f32, 16.0, 32.0, 64.0]);
+            let (mut p, a, _) = gen_case::<A>(rng, ext);
+            let shift = |rng: &mut Rng| -> f32 {
+                let s = match rng.below(4) {
+                    0 => rng.int(1, ext as i64) as f32,
+                    1 => rng.int(1, ext as i64) as f32 - 0.5,
+                    _ => rng.f32_in(0.0, ext),
+                };
+                -s
+            };
+            let (dx, dy) = match rng.below(3) {
+                0 => (shift(rng), 0.0),
+                1 => (0.0, shift(rng)),
+                _ => (shift(rng), shift(rng)),
+            };
+            for v in p.iter_mut() {
+                v[0] += dx;
+                v[1] += dy;
+            }
+            let mut h = Hasher::new();
+            for v in &p {
+                h.f32s(v);
+            }
+            h.bytes(A::NAME.as_bytes());
+            let (xlo, xhi) = p.iter().fold((f32::INFINITY, f32::NEG_INFINITY), |(lo, hi), v| (lo.min(v[0]), hi.max(v[0])));
+            let (ylo, yhi) = p.iter().fold((f32::INFINITY, f32::NEG_INFINITY), |(lo, hi), v| (lo.min(v[1]), hi.max(v[1])));
+            let straddles = (xlo < -1.5 && xhi > 1.0 && yhi > 1.0) || (ylo < -1.5 && yhi > 1.0 && xhi > 1.0);
+            rep.case(h.get(), straddles);
+            if xlo < -1.5 && xhi > 1.0 {
+                rep.count("offgrid.crosses_the_left_border_by_more_than_a_pixel");
+            }
+            if ylo < -1.5 && yhi > 1.0 {
+                rep.count("offgrid.crosses_the_top_border_by_more_than_a_pixel");
+            }
+            let before = rep.classes.get("fragments_judged").copied().unwrap_or(0);
+            judge::<A>(rep, &p, &a);
+            let after = rep.classes.get("fragments_judged").copied().unwrap_or(0);
+            if straddles {
+                rep.add("offgrid.fragments_judged_of_straddling_triangles", after - before);
+            }
+        }
+        match i % 4 {
+            0 => go::<f32>(rng, rep),
+            1 => go::<Vec3>(rng, rep),
+            2 => go::<Color4f>(rng, rep),
+            _ => go::<(Vec2, f32)>(rng, rep),
+        }
+    });
+    rep.floor("offgrid.crosses_the_left_border_by_more_than_a_pixel", 5_000);
+    rep.floor("offgrid.crosses_the_top_border_by_more_than_a_pixel", 5_000);
+    rep.floor("offgrid.fragments_judged_of_straddling_triangles", 400_000);
     rep.floor("large_extent.cases", 2_000);
     rep.floor("fragments_judged", 20_000_000);
     rep.floor("attr.component_constant_over_the_triangle", 20_000);
